@@ -14,6 +14,25 @@ pub mod c11b;
 pub mod c12;
 pub mod c13;
 pub mod c14;
+pub mod c15;
+macro_rules! family {
+    ($m:ident, $id:literal, $dq:expr, $dt:expr, $rule:literal, $expl:literal) => {
+        pub mod $m {
+            use crate::fw::*;
+            pub fn run(ctx: &Ctx) -> i32 {
+                super::c15::run_family(ctx, $id, ctx.tier.pick($dq, $dt), $rule, $expl)
+            }
+            pub fn replay(case: &serde_json::Value) -> Vec<Violation> {
+                super::c15::replay_for($id)(case)
+            }
+        }
+    };
+}
+family!(p15, "C15", 4, 5, "after the history (and, in a second mode, after every action) basic / storage (4 slots) / code of 8-11 addresses are read from State built with and without bundle tracking and compared with the reference; the same history on CacheDB must give identical ExecutionResults", "State reads equal a plain reference state; State and CacheDB execute identically");
+family!(p16, "C16", 4, 5, "for every merge schedule (merge or not after each action; always after the last) and retention (Reverts, PlainState, alternating) the taken bundle's to_plain_state(Yes|No) is applied to the pre-history plain database and compared with the reference post-state", "changeset(pre-state) == post-state for every merge schedule and both OriginalValuesKnown settings");
+family!(p17, "C17", 4, 5, "for every merge schedule with revert retention, the recorded reverts are applied group by group backwards from the reference post-state and must give the reference state before each group; for every j, revert(j) must leave a bundle whose changeset gives the reference state after the first g-j groups", "reverts unwind to the exact reference state before each merged group; revert(j) equals the prefix bundle");
+family!(p18, "C18", 3, 4, "for every merge schedule and every split point at a merge, bundle(1..i).extend(bundle(i+1..n)) is checked like a monolithic bundle (changeset and group-by-group unwinding), take_n_reverts(m) for every m must return exactly the first m groups and leave the rest, and the newer bundle with the older state prepended must describe the final state", "extend / take_n_reverts / prepend_state preserve what the bundles describe");
+family!(p19, "C19", 4, 5, "for every split of the history into a prefix (whose merged bundle B becomes the prestate) and a continuation, State(D).with_bundle_prestate(B) and State(D with B applied) must give identical results for every continuation action, identical reads afterwards (both equal to the reference) and bundles whose changesets give the reference final state", "State over a preloaded bundle behaves like State over the merged database");
 pub mod c20;
 pub mod c21;
 pub mod c22;
@@ -58,6 +77,11 @@ pub fn dispatch(ctx: &Ctx, replay: Option<&str>) -> i32 {
         "C12" => c12,
         "C13" => c13,
         "C14" => c14,
+        "C15" => p15,
+        "C16" => p16,
+        "C17" => p17,
+        "C18" => p18,
+        "C19" => p19,
         "C20" => c20,
         "C21" => c21,
         "C22" => c22,
